@@ -235,7 +235,7 @@ def tasks(tier, seed):
   for _ in range(10):
     out.append({'kind': 'momentum', 'n': 3 if q else 40, 'T': 30 if q else 120})
   for i in range(10):
-    out.append({'kind': 'rest', 'supported': i % 5 != 0, 'n': 2 if q else 40, 'k': 8 if q else 16})
+    out.append({'kind': 'rest', 'supported': i % 5 != 0, 'n': 3 if q else 40, 'k': 8 if q else 16})
   return out
 
 
